@@ -291,7 +291,19 @@ C04_MATRIX = [
     ('nocolor', {'colorize': False}),
     ('parseinfo', {'parseinfo': True}),
     ('parseinfo-plm-0.01', {'parseinfo': True, 'perlinememos': 0.01}),
+    ('parseinfo-memo-off', {'parseinfo': True, 'memoization': False}),
 ]
+
+
+def pinfo(x):
+    """The parseinfo entries of a result, in place: (rule, pos, endpos) of every dict-like AST, nested as the AST is."""
+    if isinstance(x, dict):
+        pi = x.get('parseinfo') if not isinstance(x.get('parseinfo'), (str, list, dict)) else None
+        me = [pi.rule if isinstance(pi.rule, str) else type(pi.rule).__name__, pi.pos, pi.endpos] if pi is not None else None
+        return {'__pi__': me, **{k: pinfo(v) for k, v in x.items() if k not in ('parseinfo', '__parseinfo__')}}
+    if isinstance(x, (list, tuple)):
+        return [pinfo(v) for v in x]
+    return None
 
 
 def run_matrix_case(case):
@@ -316,7 +328,7 @@ def run_matrix_case(case):
     for text in case['texts']:
         r = {}
         for name, kw in C04_MATRIX:
-            if name == 'memo-off' and case.get('lr'):
+            if name.endswith('memo-off') and case.get('lr'):
                 continue
             signal.alarm(case.get('timeout', 20))
             try:
@@ -324,11 +336,18 @@ def run_matrix_case(case):
                 sem = make_semantics(case.get('sem'), case.get('actrule', '*'))
                 if sem is not None:
                     allkw['semantics'] = sem
+                raw = {}
+
+                def go():
+                    raw['v'] = model.parse(text, start=start, **allkw)
+                    return raw['v']
                 if kw.get('trace'):
                     with _Quiet():
-                        r[name] = outcome(lambda: model.parse(text, start=start, **allkw))
+                        r[name] = outcome(go)
                 else:
-                    r[name] = outcome(lambda: model.parse(text, start=start, **allkw))
+                    r[name] = outcome(go)
+                if kw.get('parseinfo') and r[name]['k'] == 'ok':
+                    r[name]['pi'] = pinfo(raw['v'])
             except _Timeout:
                 r[name] = {'k': 'exc', 'cls': 'Timeout'}
             finally:
